@@ -428,6 +428,11 @@ def sorted_model(e, s, key, reverse, n_conc=None):
     Represented by an uninterpreted permutation `perm` with the ordering facts instantiated on access."""
     if key is not None:
         raise Unsupported("sorted with key over symbolic values")
+    reg = eng_reg(e, "__sorted")
+    for (s2, rev2, out2) in reg:
+        if rev2 == reverse and n_conc is None:
+            if pointwise_equal(e, s.n, s._get, s2.n, s2._get) is True:
+                return out2
     perm = z3.Function(e.uniq("sortperm"), z3.IntSort(), z3.IntSort())
     inv = z3.Function(e.uniq("sortinv"), z3.IntSort(), z3.IntSort())
     n = s.n
@@ -451,7 +456,28 @@ def sorted_model(e, s, key, reverse, n_conc=None):
     out.sort_info = (perm, inv, s, reverse)
     if n_conc is not None:
         return [get(i) for i in range(n_conc)]
+    reg.append((s, reverse, out))
     return out
+
+
+def eng_reg(e, name):
+    return e.ghost.setdefault(name, [])
+
+
+def m_cityblock(u, v):
+    """D18: scipy.spatial.distance.cityblock(u, v) = sum_k |u_k - v_k| for equal-length vectors"""
+    e = cur()
+    us, vs = e.as_iterable(u), e.as_iterable(v)
+    if not isinstance(us, SymSeq):
+        us = list(us)
+        us = SymSeq(len(us), lambda k, l=us: A.table_lookup({(i,): x for i, x in enumerate(l)}, (k,)))
+    if not isinstance(vs, SymSeq):
+        vs = list(vs)
+        vs = SymSeq(len(vs), lambda k, l=vs: A.table_lookup({(i,): x for i, x in enumerate(l)}, (k,)))
+    if not e.must(to_z3(us.n) == to_z3(vs.n)):
+        if e.branch(to_z3(us.n) != to_z3(vs.n)):
+            e.py_raise("ValueError", "operands could not be broadcast together")
+    return e_sum(e, us.n, lambda k: abs(lift(us.get(k)) - vs.get(k)), name="CityBlock")
 
 
 def _next(it, default=MISSING):
@@ -618,9 +644,43 @@ def e_sum(eng, n, fn, name="Sigma"):
         for i in range(cn):
             r = r + fn(i)
         return r
+    # Sigma-extensionality applied eagerly: a sum whose length and terms are provably equal to those of an earlier
+    # sum on this path *is* that sum (same symbol).  "unknown" is remembered: refutations on such a path are not
+    # trusted (aggregate matching incomplete).
+    for old in eng.sums:
+        r = pointwise_equal(eng, n, fn, old.n, old.fn)
+        if r is True:
+            return old.total()
     info = SumInfo(eng, n, fn, name)
     eng.sums.append(info)
     return info.total()
+
+
+def pointwise_equal(eng, n1, f1, n2, f2):
+    """True / False / None(unknown): n1 == n2 and forall k in [0,n1). f1(k) == f2(k)"""
+    try:
+        if not eng.must(to_z3(n1) == to_z3(n2)):
+            return False
+        k = Num(z3.Int(eng.uniq("k_pw")))
+        rng = z3.And(k.t >= 0, k.t < to_z3(n1))
+
+        def chk():
+            a, b = f1(k), f2(k)
+            if isinstance(a, (list, tuple)) or isinstance(b, (list, tuple)):
+                return False
+            goal = zb(lift(a) == b)
+            r = eng.check(z3.Not(goal))
+            if r == z3.unsat:
+                return True
+            if r == z3.sat:
+                return False
+            return None
+        r = eng.under(rng, chk)
+        if r is None:
+            eng.ext_unknown = True
+        return r
+    except Unsupported:
+        return False
 
 
 # ============================================================================= numpy
@@ -771,7 +831,24 @@ class _NP:
         def ax(e, v, t):
             vr = to_real(v)
             e.assume(z3.Implies(vr >= 0, z3.And(t >= 0, t * t == vr)))
-        return self._uf1("sqrt", x, math.sqrt, ax, domain=lambda v: v >= 0)
+
+        def conc(v):
+            # exact for perfect squares; otherwise keep the irrational symbolic (sqrt(v) >= 0, sqrt(v)^2 == v)
+            f = Fraction(repr(v)) if isinstance(v, float) else Fraction(v)
+            if f < 0:
+                raise ValueError("sqrt of negative")
+            rn, rd = math.isqrt(f.numerator), math.isqrt(f.denominator)
+            if rn * rn == f.numerator and rd * rd == f.denominator:
+                return float(Fraction(rn, rd))
+            if V.ENGINE is None:
+                return math.sqrt(v)
+            t = UF("sqrt")(to_z3(f))
+            ax(cur(), to_z3(f), t)
+            if f == 2:
+                # sqrt(2) = 2 * cos(pi/4): both are the positive roots of their defining equations
+                cur().assume(z3.And(_H > 0, _H * _H == z3.Q(1, 2), t == 2 * _H, t * _H == 1))
+            return Num(t)
+        return self._uf1("sqrt", x, conc, ax, domain=lambda v: v >= 0)
 
     def exp(self, x):
         def ax(e, v, t):
@@ -1386,6 +1463,7 @@ def _from_model(eng, modname, name):
     full = modname + "." + name
     table = {
         "scipy.special.erfc": m_erfc,
+        "scipy.spatial.distance.cityblock": m_cityblock,
         "bisect.bisect_left": m_bisect_left,
         "operator.itemgetter": _Operator().itemgetter,
         "operator.attrgetter": _Operator().attrgetter,
